@@ -4,3 +4,4 @@ From V9 Require Import Gen.Shape Shape.ShapeLib.
 
 Lemma handlers_check_before_they_change_ok : handlers_check_before_they_change = true.  Proof. vm_compute. reflexivity. Qed.
 Lemma fidget_guard_ok : fidget_guard = true.  Proof. vm_compute. reflexivity. Qed.
+Lemma fid_lifetime_ok : fid_lifetime = true.  Proof. vm_compute. reflexivity. Qed.
